@@ -41,6 +41,10 @@ CLAIMED = {
    technique="TLA+ spec of the parsing cursor (Cursor.tla: input with origin, absolute offset, LIFO stash, byte order, stack) with C06 as invariants/action properties checked by TLC over all word sequences; every maximal path replayed through eval; seeded sequences validated by TLC (Trace_Cursor)",
    text="TLC explores all sequences of parsing words (54-word alphabet crossing every cursor word with in-range, boundary, out-of-range and HUGE arguments) from three setups including an unaligned big-endian sub-input and nested suspended inputs, and checks in every state that the offset stays inside the input, remain = end - offset, that a failing word leaves input/offset/stash/rest of the stack untouched, that a successful read returned exactly the bits it moved over and that close-bitstr restores the matching open's pair. Every maximal path is replayed through the real interpreter one word per call with offset, remain, input, stack and error class compared after each word; seeded 30-word sequences are validated by a trace specification that re-executes each word with the specification's operators.",
    note="HUGE stands for sizes >= 2^63-1 (any error accepted, nothing may move); integer values above 30 bits and float values are judged by C05, not here."),
+ "C07": dict(cat="model_checking", design="5/C07",
+   technique="TLA+ theorem Inverse on Record.tla (Pack / ParseOk over the Bits.tla codec) checked by TLC for all field lists up to a length; replay through the construction and read words incl. every emit split; seeded 20-field records judged by TLC (Trace_Pack)",
+   text="TLC checks on the specification that for every field list (111 field shapes: widths 1..128 incl. 127/128, signed and unsigned, both byte orders, raw bits, strings, byte lists; so that fields start at every bit alignment) the packed length is the sum of the widths and parsing field by field returns the values and ends exactly at the end. Each exported list is packed on the real interpreter with the construction words, concatenated with >bitstr and with every split across emit calls under output interception, then parsed back with the matching read words: packed bits, parsed values, remain, output and output-length must be the specification's. Seeded records of up to 20 random fields are validated by TLC evaluating Pack/ParseOk on each recorded event.",
+   note="Float fields are covered by C05; 128-bit unsigned fields cannot be cells and are excluded (DESIGN 5.19)."),
 }
 
 PENDING_REASON = "check not built yet in this build session (planned, DESIGN.md section 12); no claim is made for it"
